@@ -67,7 +67,7 @@ func Scan(b []byte, honour map[int]int) ([]Field, error) {
 		var val []byte
 		if pendingLen >= 0 && tag == pendingTag {
 			end := eq + 1 + pendingLen
-			if end >= len(b) || b[end] != SOH {
+			if pendingLen > len(b) || end >= len(b) || b[end] != SOH {
 				return out, fmt.Errorf("data field %d: length %d does not end at SOH", tag, pendingLen)
 			}
 			val = b[eq+1 : end]
